@@ -92,7 +92,7 @@ def run(tier, seed):
             v.violation("permutations(%d) returns a different table after rotations(%d) was called (tables share storage)" % (cs, cs), {"cs": cs})
         if not np.array_equal(np.asarray(got2, dtype=float), got_copy) or not np.array_equal(np.asarray(got, dtype=float), got_copy):
             v.violation("rotations(%d) returns a different table on the second call / changes a table it returned before" % cs, {"cs": cs})
-        if got.shape != ex.shape or np.abs(got - ex).max() > 1e-12:
+        if got.shape != ex.shape or not (np.abs(got - ex).max() <= 1e-12):
             v.violation("rotations(%d) differs from the exact rotations paired with permutations(%d) (max dev %.3g)" %
                         (cs, cs, float(np.abs(got - ex).max()) if got.shape == ex.shape else -1), {"cs": cs})
         if np.asarray(cached).shape != got.shape or not np.array_equal(np.asarray(cached), got):
@@ -109,7 +109,7 @@ def run(tier, seed):
             after = np.asarray(symmetry.Umis(ref_pair[0], ref_pair[1], cs), dtype=float)
             again = np.asarray(symmetry.rotations(cs), dtype=float)
             pagain = np.asarray(symmetry.permutations(cs), dtype=float)
-            if not np.array_equal(before, after) or again.shape != ex.shape or np.abs(again - ex).max() > 1e-12 or not np.array_equal(pagain, perm0):
+            if not np.array_equal(before, after) or again.shape != ex.shape or not (np.abs(again - ex).max() <= 1e-12) or not np.array_equal(pagain, perm0):
                 v.violation("after the caller overwrote the arrays returned by rotations(%d)/permutations(%d), the functions or Umis answer differently "
                             "(results share storage with the module's tables or cache)" % (cs, cs), {"cs": cs})
             perm = pagain
@@ -126,7 +126,7 @@ def run(tier, seed):
         for mod in (tools, laue):
             B = mod.form_b_mat(cell)
             for i in range(len(got)):
-                if np.abs(got[i].dot(B).dot(perm[i]) - B).max() > 1e-9 * np.abs(B).max():
+                if not (np.abs(got[i].dot(B).dot(perm[i]) - B).max() <= 1e-9 * np.abs(B).max()):
                     v.violation("rotations(%d)[%d].B.permutations(%d)[%d] != B for the conforming cell %s (%s)" %
                                 (cs, i, cs, i, cell, mod.__name__), {"cs": cs, "i": i, "cell": cell})
                     break
@@ -152,7 +152,7 @@ def run(tier, seed):
         if np.array_equal(U1, np.rint(U1)) and np.array_equal(U2, np.rint(U2)):
             try:
                 mi = np.asarray(symmetry.Umis(np.rint(U1).astype(int), np.rint(U2).astype(np.int64), cs), dtype=float)
-                if mi.shape != m.shape or not np.all(np.isfinite(mi)) or np.abs(np.cos(np.radians(mi[:, 1])) - np.cos(np.radians(m[:, 1]))).max() > 1e-9:
+                if mi.shape != m.shape or not np.all(np.isfinite(mi)) or not (np.abs(np.cos(np.radians(mi[:, 1])) - np.cos(np.radians(m[:, 1]))).max() <= 1e-9):
                     v.violation("Umis on integer-typed rotation matrices differs from Umis on the same matrices as floats (crystal system %d)" % cs, desc)
             except Exception as ex:
                 v.violation("Umis raised %r on integer-typed proper rotations" % ex, desc)
@@ -166,7 +166,7 @@ def run(tier, seed):
                 v.violation("Umis row %d: angle %r outside [0,180] or wrong index %r" % (k, ang, m[k, 0]), desc)
                 break
             # compare angles where acos is well conditioned, cosines otherwise
-            if abs(math.cos(math.radians(ang)) - want) > 1e-9:
+            if not (abs(math.cos(math.radians(ang)) - want) <= 1e-9):
                 v.violation("Umis(U1,U2,%d)[%d] = %.12g deg, cos = %.12g; the rotation U1'.U2.rot[%d]' has cos(angle) = %.12g exactly" %
                             (cs, k, ang, math.cos(math.radians(ang)), k, want), desc)
                 break
@@ -183,14 +183,14 @@ def run(tier, seed):
                 v.violation("Umis raised %r on symmetry-equivalent input (%s)" % (ex, what), desc)
                 continue
             # angles near 0/180 are ill conditioned in acos: compare cosines
-            if not np.all(np.isfinite(mm)) or np.abs(np.cos(np.radians(mm)) - np.cos(np.radians(base))).max() > 1e-9:
+            if not np.all(np.isfinite(mm)) or not (np.abs(np.cos(np.radians(mm)) - np.cos(np.radians(base))).max() <= 1e-9):
                 v.violation("Umis multiset of angles changes under '%s' (crystal system %d)" % (what, cs), desc)
         uu = np.asarray(symmetry.Umis(U1, U1, cs))[:, 1]
         if not np.all(np.isfinite(uu)) or not (uu.min() <= 1e-5):
             v.violation("Umis(U,U,%d) does not contain 0 (min %.3g deg)" % (cs, uu.min()), desc)
         # the very same array object for both arguments is the same question as two equal arrays: angle k is the angle of operator k
         uc = np.asarray(symmetry.Umis(U1, U1.copy(), cs))[:, 1]
-        if uu.shape != uc.shape or np.abs(np.cos(np.radians(uu)) - np.cos(np.radians(uc))).max() > 1e-9:
+        if uu.shape != uc.shape or not (np.abs(np.cos(np.radians(uu)) - np.cos(np.radians(uc))).max() <= 1e-9):
             v.violation("Umis(U, U, %d) with one array object passed twice differs from Umis(U, copy of U, %d): %s vs %s" %
                         (cs, cs, np.round(uu, 6).tolist()[:6], np.round(uc, 6).tolist()[:6]), desc)
     # misorientations of 1e-3 .. 1e-6 rad (sub-grain boundaries, the refinement noise of one grain): U2 = U1.d with d a Cayley rotation
@@ -232,7 +232,7 @@ def run(tier, seed):
                 delta = 4e-15                       # rounding of the trace of a product of three float matrices
                 sn = abs(math.sin(math.radians(want[k])))
                 tol = 1e-9 + math.degrees(delta / max(sn, math.sqrt(delta)))
-                if abs(got[k] - want[k]) > tol:
+                if not (abs(got[k] - want[k]) <= tol):
                     v.violation("Umis(U1, U1.d, %d)[%d] = %.9g deg; d is a rotation by %.9g deg and d.rot[%d]' one by %.9g deg" %
                                 (cs, k, got[k], want[0], k, want[k]), desc)
                     break
